@@ -497,6 +497,11 @@ def k_generate(run, case):
             tokens.append(tok)
         elif c["kind"] == "float2":
             tokens += [repr(round(float(abs(rng.normal())), 3)), str(int(rng.integers(0, 90)))]
+            if rng.random() < .4:
+                # values that are equal to True / False as numbers: 1, 1.0, 0, 0.0
+                tokens[-2] = ["1", "1.0", "0", "0.0"][rng.integers(4)]
+            if rng.random() < .2:
+                tokens[-1] = ["1", "0", "1.0"][rng.integers(3)]
         elif c["kind"] == "choice":
             tokens.append(str(c["choices"][rng.integers(len(c["choices"]))]))
         elif c["kind"] == "str":
